@@ -192,6 +192,32 @@ def step (st : St) (l : String) : St × String :=
     | some bloom, some b =>
       (st, verdict (toString (bloomTestBytes (mkH st.poolH) bloom b)) go false "TestBytes-differs-from-BloomLookup")
     | _, _ => bad
+  | ["cz", hx] =>
+    match bytesOfHex hx with
+    | some v =>
+      let c := compressBytes v
+      let rt := match decompressBytes c v.length with
+        | .ok d => if d == v then "ok" else "bad"
+        | .error _ => "err"
+      -- Spec: any stored form that the decoder turns back into the vector is acceptable
+      let specOk := match go.splitOn " " with
+        | [gc, gs] => gs == "ok" && (match bytesOfHex gc with
+            | some gcb => (match decompressBytes gcb v.length with | .ok d => d == v | .error _ => false)
+            | none => false)
+        | _ => false
+      (st, verdict (hexOrDash c ++ " " ++ rt) go specOk "stored-vector-does-not-round-trip")
+    | none => bad
+  | ["dz", hx, t] =>
+    match bytesOfHex hx, t.toNat? with
+    | some data, some target =>
+      let m := match decompressBytes data target with
+        | .ok d => "ok:" ++ hexOrDash d
+        | .error .missingData => "missing"
+        | .error .unreferencedData => "unreferenced"
+        | .error .exceededTarget => "exceeded"
+        | .error .zeroContent => "zero"
+      (st, verdict m go false "DecompressBytes-differs")
+    | _, _ => bad
   | ["bf", bl, a, t] =>
     match bytesOfHex bl, parseCrit st a t with
     | some bloom, some c =>
